@@ -408,6 +408,11 @@ def rule_r5(ctx) -> List[R.Inst]:
                     else:
                         out_ += cat_parts(x)
                 return out_
+            if isinstance(e, ast.Name):
+                # a header kept in a local of an enclosing loop: prefix = b"#.." + channel + b":"
+                ds = local_defs(fn.node, e.id)
+                if len(ds) == 1 and isinstance(ds[0], ast.BinOp) and isinstance(ds[0].op, ast.Add):
+                    return cat_parts(ds[0])
             return [e]
         parts = cat_parts(appended)
         # the last part is the payload: b"".join(<slots>)
